@@ -313,7 +313,40 @@ def prop_C16(run):
                       "COND pre-pass is an unbounded fixed point", "INC nested include", "PIPE leftover check before definitions/matching; unused-define check before output"]
 
 
+class FilteredRun:
+    """forwards everything to the run, but only those violations the predicate selects (the rest is another property's business)"""
+    def __init__(self, run, pred):
+        self._run = run
+        self._pred = pred
+
+    def __getattr__(self, name):
+        return getattr(self._run, name)
+
+    def violation(self, rule, key, loc, detail):
+        if self._pred(key, detail):
+            self._run.violation(rule, key, loc, detail)
+
+    def check(self, cond, rule, key, loc, ok_detail, bad_detail):
+        if cond or self._pred(key, bad_detail):
+            self._run.check(cond, rule, key, loc, ok_detail, bad_detail)
+
+
+def prop_C17(run):
+    import rules_asm, rules_idx, rules_lim, rules_fix
+    rules_asm.asm_block_rules(run)
+    rules_asm.substitution_rules(run)
+    rules_asm.fn_rules(run)
+    rules_idx.static_known(run)
+    # recursion through asm blocks, user functions and the expression evaluator/parser (asm blocks nest through expressions)
+    rules_lim.lim1(FilteredRun(run, lambda key, d: bool(__import__("re").search(r"eval_asm|eval_fn|expr::eval|Expr>::eval|reset-on-cycle\|expr::parser::parse|expr::parser::ExpressionParser", key + " " + d))))
+    rules_fix.fix1(run)
+    run.rules_run += ["ASM depth guard, content filter, start position, block-local position and context, names usable in the block, concatenation order",
+                      "ASM every parameter bound by value and by text; hygiene renaming agrees", "FN user function call shape",
+                      "SK asm blocks are never statically known", "LIM1 recursion cycles guarded", "FIX1 the block's result is confirmed by a strict pass"]
+
+
 PROPS = {
+    "C17": prop_C17,
     "C16": prop_C16,
     "C15": prop_C15,
     "C14": prop_C14,
